@@ -744,6 +744,9 @@ class Emitter {
                 t["k"]           = T->getStmtClassName();
                 t["l"]           = line(T->getBeginLoc());
                 const Stmt *Cnd = B->getTerminatorCondition(false);
+                if (const Expr *LC = B->getLastCondition())
+                    if (B->succ_size() == 2 && !isa<SwitchStmt>(T))
+                        Cnd = LC;
                 if (Cnd) {
                     t["cond"] = J(Cnd);
                     const Expr *ce = dyn_cast<Expr>(Cnd);
